@@ -184,8 +184,14 @@ def user_round_tasks(oracles, budget, graphs, params=None):
                 actors = [dict(name="usr", argv=["jade", "try-submit-jobs", "{out}"], host=host, guard="submitted"),
                           rec_actor(n)]
                 sc = mk_scen(bb, gkw, actors=actors, free_at_poll=True)
-                tasks.append(dict(id=f"usr-{g}-{tag}-{host}-b{budget[0]}", scen=sc, oracles=["Obs"] + oracles,
-                                  budget=budget, cls="user-round+" + _cls(bb, gkw)))
+                t = dict(id=f"usr-{g}-{tag}-{host}-b{budget[0]}", scen=sc, oracles=["Obs"] + oracles,
+                         budget=budget, cls="user-round+" + _cls(bb, gkw))
+                heavy = gkw.get("max_nodes") is None and sum(1 for l in bb if not l) >= 3
+                if heavy:
+                    t["weight"] = 6
+                    tasks += shard([t], 12)
+                else:
+                    tasks.append(t)
     return tasks
 
 
